@@ -612,6 +612,9 @@ def _gen_op2_case(rng, big=False, bigtab=False):
             blocks.append({"t": "t", "name": _name(rng).upper(), "trailer": [rng.randint(100, 200)] + [rng.randint(0, 70000) for _ in range(6)], "records": recs})
     if len(blocks) > 1 and rng.random() < 0.3:
         blocks[-1]["name"] = blocks[0]["name"]
+    elif len(blocks) > 1 and rng.random() < 0.5 and len(blocks[0]["name"]) < 8:
+        # one name a proper prefix of another (KAA / KAAX, K / KAA)
+        blocks[-1]["name"] = blocks[0]["name"] + rng.choice("XA1")
     return {"kind": "op2", "endian": rng.choice(["l", "b"]), "bit64": bit64, "date": [rng.randint(1, 12), rng.randint(1, 28), rng.randint(0, 99)],
             "label": rng.choice(["NX2021", "XXXXXXXX", "PYYETI"]), "blocks": blocks}
 
@@ -722,6 +725,17 @@ def _check_op2_file_(op2, path, case, positions):
         for nm, b in last.items():
             if _bits(mats[nm]) != _bits(_op2_expected_matrix(b)):
                 return ("rdop2mats-values", nm, "last occurrence")
+        # named subsets: a plain name selects exactly that data block (also when it is a prefix of another name),
+        # a trailing '*' selects every name with that prefix; each equals the corresponding filter of the full read
+        for nm in sorted(last):
+            for patt, want in ((nm.lower(), [nm]), (nm[: max(1, len(nm) - 1)].lower() + "*",
+                                                   [x for x in last if x.startswith(nm[: max(1, len(nm) - 1)])])):
+                sub = o2.rdop2mats(names=[patt])
+                if sorted(sub) != sorted(want):
+                    return ("rdop2mats-named-subset", {"names": [patt], "returned": sorted(sub)}, sorted(want))
+                for x in want:
+                    if _bits(sub[x]) != _bits(mats[x]):
+                        return ("rdop2mats-named-subset-values", {"names": [patt], "matrix": x}, "as in the full read")
     except Exception as e:  # noqa: BLE001
         return ("read-raises", "%s: %s" % (type(e).__name__, e), "the encoded blocks")
     finally:
